@@ -5,6 +5,7 @@ from ..core import guards as G
 from ..core import bytesnf as B
 from .common import where, call_sites
 from . import guardrules as R
+from . import flow as F
 
 EXPLANATION = (
     "For each of the frozen identity/zero obligations (confirmed by reading the anchored lines) decides on the CFG that the "
@@ -111,7 +112,17 @@ def run(ctx):
         s = ev.sites.get(b)
         return s is not None and s.callee[0] == "Vec::<T, A>::push" and any(x.op == "call" and B.cname(x) == "HashToPoint::hash_to_point" for x in subterms(s.args[1]))
 
-    R.check_block_guard(ctx, "E4.loop", P, "BlsSignatureCore::core_aggregate_verify", is_pair_push, "is_identity", ("re", r"^\(.*Iterator::next.*\)\.0\.1\.0$|Iterator::next"), "pairs.push((hash, pk)) per entry")
+    fagg = ctx.need_fn("E4.loop", "BlsSignatureCore::core_aggregate_verify")
+    if fagg is not None:
+        ents = F.entry_builders(P, fagg)
+        if not ents:
+            ctx.ob("E4.loop.anchor", "BlsSignatureCore::core_aggregate_verify/per-entry pair", False, "per-entry construction of (hash, pk) not found in core_aggregate_verify (missing anchor)", where=where(fagg))
+        for e in ents:
+            # the key that is paired is the key that was tested: !is_identity(pk) holds where the pair is built
+            comps = e["value"].a[1] if e["value"].op == "agg" else ()
+            pkc = [B.peel(c) for c in comps if not F._has_h2p(c)]
+            ok = bool(pkc) and any(not pol and a[0] == "atom" and a[1] == "is_identity" and B.peel(a[2]) == pkc[0] for a, pol in e["lits"])
+            ctx.ob("E4.loop", "BlsSignatureCore::core_aggregate_verify/pairs.push((hash, pk)) per entry", ok, "the per-entry pair (%s) is built only after !is_identity of the very key it contains" % e["mode"], where=where(e["fn"], e["bb"]))
     # scalar import: zero => none
     R.check_scalar_zero_guard(ctx, "E4.zero", P)
     # all byte importers of scalars go through these helpers
@@ -152,7 +163,6 @@ def run(ctx):
     from . import constructions as K
 
     K.check_core_forwarding(ctx, P, rule="E5.guards-see-inputs")
-    from . import flow as F
 
     F.check_iszero(ctx, P, "E8.iszero", check_asserts=False, need=("zero",))
     ctx.assume("Group::is_identity / Field::is_zero of the backend are correct (dependency contract)")
